@@ -141,6 +141,8 @@ def check(case: Dict[str, Any]) -> Dict[str, Any]:
         classes.append('root-name')
     if case.get('via_incoming') and any(r.get('age', 'zero') == 'zero' for r in secs['an']):
         classes.append('answers-added-through-add_answer(incoming, record)')
+    if case.get('used_before'):
+        classes.append('entry-objects-used-in-an-earlier-message-first')
     if len(packets) > 1:
         classes.append('multi-datagram')
     if pointers:
